@@ -364,7 +364,21 @@ def dump(data, fmt):
     if fmt == 'json':
         return json.dumps(data, indent=1)
     import yaml
-    return yaml.safe_dump(data, sort_keys=False, allow_unicode=True)
+    # equal sub-containers become one shared object, so the YAML text uses anchors / aliases (&id001 / *id001) and the
+    # library loads shared objects - a representation detail that must not matter
+    pool = {}
+
+    def share(x):
+        if isinstance(x, list):
+            y = [share(e) for e in x]
+        elif isinstance(x, dict):
+            y = {k: share(e) for k, e in x.items()}
+        else:
+            return x
+        if not y:
+            return y
+        return pool.setdefault(json.dumps(y, sort_keys=True, default=repr) + type(y).__name__ + repr(list(y)), y)
+    return yaml.safe_dump(share(data), sort_keys=False, allow_unicode=True)
 
 
 def load_back(text, fmt):
